@@ -253,6 +253,226 @@ fn run_op<'a>(auth: &'a mut Auth, op: &'a Value) -> Pin<Box<dyn Future<Output = 
     })
 }
 
+// ------------------------------------------------------------------------------------------------
+// WebAuthn client level
+
+use passkey_client::{Client, DefaultClientData, DefaultClientDataWithCustomHash, DefaultClientDataWithExtra, Origin, RpIdVerifier, UnverifiedAssetLink, WebauthnError};
+
+fn werr_json(e: &WebauthnError) -> Value {
+    match e {
+        WebauthnError::AuthenticatorError(b) => json!({"kind": "AuthenticatorError", "code": b}),
+        other => json!({"kind": format!("{:?}", other)}),
+    }
+}
+
+fn wprf_values(v: &Value) -> webauthn::AuthenticationExtensionsPrfValues {
+    webauthn::AuthenticationExtensionsPrfValues {
+        first: unhex(v["first"].as_str().unwrap()).into(),
+        second: if v["second"].is_null() { None } else { Some(unhex(v["second"].as_str().unwrap()).into()) },
+    }
+}
+
+fn wprf_inputs(v: &Value) -> webauthn::AuthenticationExtensionsPrfInputs {
+    webauthn::AuthenticationExtensionsPrfInputs {
+        eval: if v["eval"].is_null() { None } else { Some(wprf_values(&v["eval"])) },
+        eval_by_credential: v["by_cred"].as_array().map(|l| {
+            l.iter().map(|kv| (utf8(&kv[0]), wprf_values(&kv[1]))).collect::<HashMap<_, _>>()
+        }),
+    }
+}
+
+fn wext(v: &Value) -> Option<webauthn::AuthenticationExtensionsClientInputs> {
+    if v.is_null() {
+        return None;
+    }
+    Some(webauthn::AuthenticationExtensionsClientInputs {
+        cred_props: v["cred_props"].as_bool(),
+        prf: if v["prf"].is_null() { None } else { Some(wprf_inputs(&v["prf"])) },
+        prf_already_hashed: if v["prf_hashed"].is_null() { None } else { Some(wprf_inputs(&v["prf_hashed"])) },
+    })
+}
+
+fn uv_req(v: &Value) -> webauthn::UserVerificationRequirement {
+    match v.as_str().unwrap_or("preferred") {
+        "required" => webauthn::UserVerificationRequirement::Required,
+        "discouraged" => webauthn::UserVerificationRequirement::Discouraged,
+        _ => webauthn::UserVerificationRequirement::Preferred,
+    }
+}
+
+fn creation_options(q: &Value) -> webauthn::CredentialCreationOptions {
+    webauthn::CredentialCreationOptions {
+        public_key: webauthn::PublicKeyCredentialCreationOptions {
+            rp: webauthn::PublicKeyCredentialRpEntity {
+                id: if q["rp_id"].is_null() { None } else { Some(utf8(&q["rp_id"])) },
+                name: utf8(&q["rp_name"]),
+            },
+            user: webauthn::PublicKeyCredentialUserEntity {
+                id: unhex(q["user"]["id"].as_str().unwrap()).into(),
+                display_name: utf8(&q["user"]["display"]),
+                name: utf8(&q["user"]["name"]),
+            },
+            challenge: unhex(q["challenge"].as_str().unwrap()).into(),
+            pub_key_cred_params: q["params"].as_array().unwrap().iter().map(|a| webauthn::PublicKeyCredentialParameters {
+                ty: webauthn::PublicKeyCredentialType::PublicKey,
+                alg: iana::Algorithm::from_i64(a.as_i64().unwrap()).expect("known algorithm id"),
+            }).collect(),
+            timeout: None,
+            exclude_credentials: descriptors(&q["exclude"]),
+            authenticator_selection: if q["selection"].is_null() { None } else {
+                let s = &q["selection"];
+                Some(webauthn::AuthenticatorSelectionCriteria {
+                    authenticator_attachment: None,
+                    resident_key: match s["rk"].as_str() {
+                        Some("required") => Some(webauthn::ResidentKeyRequirement::Required),
+                        Some("preferred") => Some(webauthn::ResidentKeyRequirement::Preferred),
+                        Some("discouraged") => Some(webauthn::ResidentKeyRequirement::Discouraged),
+                        _ => None,
+                    },
+                    require_resident_key: s["require_rk"].as_bool().unwrap_or(false),
+                    user_verification: uv_req(&s["uv"]),
+                })
+            },
+            hints: None,
+            attestation: Default::default(),
+            attestation_formats: None,
+            extensions: wext(&q["ext"]),
+        },
+    }
+}
+
+fn request_options(q: &Value) -> webauthn::CredentialRequestOptions {
+    webauthn::CredentialRequestOptions {
+        public_key: webauthn::PublicKeyCredentialRequestOptions {
+            challenge: unhex(q["challenge"].as_str().unwrap()).into(),
+            timeout: None,
+            rp_id: if q["rp_id"].is_null() { None } else { Some(utf8(&q["rp_id"])) },
+            allow_credentials: descriptors(&q["allow"]),
+            user_verification: uv_req(&q["uv"]),
+            hints: None,
+            attestation: Default::default(),
+            attestation_formats: None,
+            extensions: wext(&q["ext"]),
+        },
+    }
+}
+
+fn wprf_out(p: &webauthn::AuthenticationExtensionsPrfOutputs) -> Value {
+    json!({"enabled": p.enabled,
+           "results": p.results.as_ref().map(|r| json!({"first": hex(&r.first), "second": r.second.as_ref().map(|b| hex(b))}))})
+}
+
+fn make_origin(op: &Value) -> Result<Origin<'static>, String> {
+    if !op["android"].is_null() {
+        let a = &op["android"];
+        let url = url::Url::parse("https://example.com/.well-known/assetlinks.json").unwrap();
+        UnverifiedAssetLink::new(
+            "com.example.app".to_string(),
+            a["fingerprint"].as_str().unwrap(),
+            utf8(&a["host"]),
+            url,
+        )
+        .map(Origin::Android)
+        .map_err(|e| format!("{:?}", e))
+    } else {
+        url::Url::parse(op["origin"].as_str().unwrap()).map(Origin::from).map_err(|e| format!("{:?}", e))
+    }
+}
+
+type Cl = Client<LogStore, ScriptedUser, public_suffix::PublicSuffixList>;
+
+async fn client_op(client: &mut Cl, op: &Value, sh: &SharedRef) -> Value {
+    let origin = match make_origin(op) {
+        Ok(o) => o,
+        Err(e) => return json!({"origin_error": e}),
+    };
+    let allow_localhost = op["allow_localhost"].as_bool().unwrap_or(false);
+    let verifier = RpIdVerifier::new(public_suffix::DEFAULT_PROVIDER).allows_insecure_localhost(allow_localhost);
+    let rp_opt = if op["req"]["rp_id"].is_null() { None } else { Some(utf8(&op["req"]["rp_id"])) };
+    let domain = match verifier.assert_domain(&origin, rp_opt.as_deref()) {
+        Ok(r) => json!({"ok": hex(r.as_bytes())}),
+        Err(e) => json!({"err": werr_json(&e)}),
+    };
+    let origin_str = origin.to_string();
+    let cd = &op["cd"];
+    let mode = cd["mode"].as_str().unwrap_or("default").to_string();
+    let result = if op["op"] == "register" {
+        let req = creation_options(&op["req"]);
+        let r = match mode.as_str() {
+            "extra" => client.register(origin, req, DefaultClientDataWithExtra(cd["extra"].clone())).await,
+            "hash" => client.register(origin, req, DefaultClientDataWithCustomHash(unhex(cd["hash"].as_str().unwrap()))).await,
+            _ => client.register(origin, req, DefaultClientData).await,
+        };
+        match r {
+            Err(e) => json!({"err": werr_json(&e)}),
+            Ok(c) => json!({"ok": {
+                "id": hex(c.id.as_bytes()), "raw_id": hex(&c.raw_id),
+                "client_data_json": hex(&c.response.client_data_json),
+                "auth_data": hex(&c.response.authenticator_data),
+                "public_key": c.response.public_key.as_ref().map(|b| hex(b)),
+                "alg": c.response.public_key_algorithm,
+                "att_obj": hex(&c.response.attestation_object),
+                "transports": c.response.transports.as_ref().map(|t| t.len()),
+                "cred_props": c.client_extension_results.cred_props.as_ref().map(|p| json!({"rk": p.discoverable})),
+                "prf": c.client_extension_results.prf.as_ref().map(wprf_out),
+            }}),
+        }
+    } else {
+        let req = request_options(&op["req"]);
+        let r = match mode.as_str() {
+            "extra" => client.authenticate(origin, req, DefaultClientDataWithExtra(cd["extra"].clone())).await,
+            "hash" => client.authenticate(origin, req, DefaultClientDataWithCustomHash(unhex(cd["hash"].as_str().unwrap()))).await,
+            _ => client.authenticate(origin, req, DefaultClientData).await,
+        };
+        match r {
+            Err(e) => json!({"err": werr_json(&e)}),
+            Ok(c) => json!({"ok": {
+                "id": hex(c.id.as_bytes()), "raw_id": hex(&c.raw_id),
+                "client_data_json": hex(&c.response.client_data_json),
+                "auth_data": hex(&c.response.authenticator_data),
+                "signature": hex(&c.response.signature),
+                "user_handle": c.response.user_handle.as_ref().map(|b| hex(b)),
+                "prf": c.client_extension_results.prf.as_ref().map(wprf_out),
+                "cred_props": c.client_extension_results.cred_props.is_some(),
+            }}),
+        }
+    };
+    let _ = sh;
+    json!({"domain": domain, "origin_str": hex(origin_str.as_bytes()), "result": result})
+}
+
+/// sequential WebAuthn-level operations through `Client`
+fn client_mode(case: &Value) -> Value {
+    let sh: SharedRef = Arc::new(Mutex::new(Shared::default()));
+    {
+        let mut s = sh.lock().unwrap();
+        if let Some(f) = case["faults"].as_array() {
+            for x in f {
+                s.faults.insert(x["at"].as_u64().unwrap() as usize, x["code"].as_u64().unwrap() as u8);
+            }
+        }
+    }
+    let store = AnyStore::from_json(&case["store"]);
+    let auth = build_auth(&case["config"], store, &case["user"], sh.clone(), None);
+    let mut outs = Vec::new();
+    // `allows_insecure_localhost` is a property of the client: one client per distinct setting
+    let mut client: Cl = Client::new(auth);
+    let mut current = false;
+    for op in case["ops"].as_array().unwrap() {
+        let want = op["allow_localhost"].as_bool().unwrap_or(false);
+        if want != current {
+            client = client.allows_insecure_localhost(want);
+            current = want;
+        }
+        let v = block_on(client_op(&mut client, op, &sh));
+        let mut o = v;
+        o["log"] = Value::Array(take_log(&sh));
+        o["store_after"] = client.authenticator().store().inner.snapshot();
+        outs.push(o);
+    }
+    json!({"ops": outs})
+}
+
 fn take_log(sh: &SharedRef) -> Vec<Value> {
     std::mem::take(&mut sh.lock().unwrap().log)
 }
@@ -360,6 +580,7 @@ fn run_case(case: &Value) -> Value {
     match case["mode"].as_str().unwrap_or("sequential") {
         "sequential" => sequential(case),
         "concurrent" => concurrent(case),
+        "client" => client_mode(case),
         m => panic!("unknown mode {m}"),
     }
 }
